@@ -86,7 +86,8 @@ class Spec:
             g, b = self.variants(t['member_type'], ints_only)
             n = t['count']
             good = [sum([g[(i + j) % len(g)] for j in range(n)], []) for i in range(min(3, len(g)))]
-            bad = [sum([g[0]] * (n - 1), []) + x for x in b[:2]] + [x + sum([g[0]] * (n - 1), []) for x in b[:1]]
+            # one violated member at every position of the array
+            bad = [sum([g[0]] * pos, []) + x + sum([g[0]] * (n - 1 - pos), []) for pos in range(n) for x in b[:2]]
             return good, bad
         if ints_only:
             raise Unsupported(k)
